@@ -659,6 +659,7 @@ func subAttr() subx {
 			opSet(kI("a", 2)),
 			opSet(kI("b", 1), kI("c", 1)),
 			opSet(kI("a", 3), kI("d", 1)),
+			opSet(kI("e", 1), kI("a", 4)), // a new key BEFORE an update of an existing key, in one call
 			opSet(kI("", 1)),
 			opSet(kX("x"), kI("b", 2)),
 			opSet(kS("s", "abcdef")),
